@@ -2,6 +2,7 @@
 # usage: tools_trymut.sh <patch.diff> <ID>...   apply a seeded change to /repo, run the checks, undo it
 # (evidence of these runs goes to a scratch directory, never to /verif/evidence)
 p=$1; shift
+if [ -n "$(git -C /repo status --porcelain)" ]; then echo "REFUSING: /repo has uncommitted changes (commit the contract edits first)"; exit 4; fi
 git -C /repo apply "$p" || { echo "PATCH DOES NOT APPLY"; exit 3; }
 ev=/var/tmp/verif-scratch/trymut-evidence; mkdir -p $ev
 for id in "$@"; do (cd /verif && VERIF_EVIDENCE_DIR=$ev VERIF_NOCACHE=1 ./check $id 2>&1 | grep -E "VIOLATION|UNDECIDED|KNOWN|obligations," ); done
